@@ -56,7 +56,7 @@ class Check:
     nshards_quick = 32
     nshards_thorough = 96
     budget_quick = 450      # seconds of wall clock per shard (cap, not target; a quick run takes 10-60 s on an idle machine)
-    budget_thorough = 1500
+    budget_thorough = 3000
 
     def setup(self, tier):
         """called once in every worker before the first case"""
